@@ -175,6 +175,19 @@ pub fn parse_string(name: &str, fragment: &yaml::Yaml) -> Result<Option<String>,
     }
 }
 
+/// A domain name for a search list: labels of 1 to 63 octets separated by dots.
+pub fn parse_search_domain(name: &str, fragment: &yaml::Yaml) -> Result<Option<String>, Error> {
+    match parse_string(name, fragment)? {
+        Some(domain) if domain.split('.').any(|l| l.is_empty() || l.len() > 63) => {
+            Err(Error::InvalidConfig(format!(
+                "{} has a label that is empty or longer than 63 octets: '{}'",
+                name, domain
+            )))
+        }
+        other => Ok(other),
+    }
+}
+
 pub fn parse_boolean(name: &str, fragment: &yaml::Yaml) -> Result<Option<bool>, Error> {
     match fragment {
         yaml::Yaml::Null => Ok(None),
@@ -855,7 +868,7 @@ fn load_config_from_string(cfg: &str) -> Result<SharedConfig, Error> {
                         .ok_or_else(|| Error::InvalidConfig("dns-servers cannot be null".into()))?
                 }
                 (Some("dns-search"), s) => {
-                    dns_search = parse_array("dns-search", s, parse_string)?
+                    dns_search = parse_array("dns-search", s, parse_search_domain)?
                         .ok_or_else(|| Error::InvalidConfig("dns-search cannot be null".into()))?
                 }
                 (Some("captive-portal"), s) => {
